@@ -405,7 +405,14 @@ func (n *ConstantLookupNode) String() string {
 	var buff strings.Builder
 
 	if n.Left != nil {
+		parens := ExpressionPrecedence(n) > ExpressionPrecedence(n.Left)
+		if parens {
+			buff.WriteRune('(')
+		}
 		buff.WriteString(n.Left.String())
+		if parens {
+			buff.WriteRune(')')
+		}
 	}
 	buff.WriteString("::")
 	buff.WriteString(n.Right.String())
